@@ -52,6 +52,33 @@ Theorem recover_terminates_refuted : forall fuel pos, scan fuel cyclic_log pos 5
 Proof. exact scan_unbounded. Qed.
 Print Assumptions recover_terminates_refuted.
 
+(* Where the scan stops (a block that is not part of the log), the end of the log is the transaction whose commit block
+   failed its checksum, when there was one - for every transaction id, 0 included (the ids wrap around 2^32) ... *)
+Theorem failed_commit_ends_the_log : forall f j pos id need last e,
+  j_blk j pos = JOther -> scan (S f) j pos id need last (Some e) = SEnd e.
+Proof. intros f j pos id need last e H. cbn [scan]. rewrite H. reflexivity. Qed.
+Print Assumptions failed_commit_ends_the_log.
+
+(* ... while the code as it was cannot tell "ended at transaction 0" from "no end found": *)
+Theorem failed_commit_at_tid_0_forgotten_by_old_code : forall f j pos id need last,
+  j_blk j pos = JOther -> scan_old (S f) j pos id need last 0 = SEnd id.
+Proof. intros f j pos id need last H. cbn [scan_old]. rewrite H. reflexivity. Qed.
+Print Assumptions failed_commit_at_tid_0_forgotten_by_old_code.
+
+(* ... and the code as it was, in which end_transaction = 0 meant "not determined yet", put the end one transaction too far
+   when the failing transaction has id 0: that transaction was replayed (found when the generator learnt ASYNC_COMMIT;
+   repaired in the repository) *)
+Definition async_tid0_log : journal :=
+  mkJ 16 (fun i => match i with
+                   | 0 => JDesc 4294967295 true [mkTag 7 false true] | 1 => JData [1] | 2 => JCommit 4294967295 true 100
+                   | 3 => JDesc 0 true [mkTag 9 false true] | 4 => JData [2] | 5 => JCommit 0 false 101
+                   | _ => JOther end) 0 4294967295 true.
+Theorem failed_commit_at_tid_0_old_refuted :
+  scan 64 async_tid0_log 0 4294967295 false 0 None = SEnd 0 /\
+  scan_old 64 async_tid0_log 0 4294967295 false 0 0 = SEnd 1.
+Proof. vm_compute. split; reflexivity. Qed.
+Print Assumptions failed_commit_at_tid_0_old_refuted.
+
 (* Non-vacuity: two transactions, a revoke in the second cancels block 7 of the first *)
 Definition ex_j : journal :=
   mkJ 16 (fun i => match i with
